@@ -131,6 +131,10 @@ func (m *C04) OnBlock(e *Env, blk *world.BlockRecord) {
 			}
 			mg.R3[dm.State.MemberID] = "confirm"
 		default: // complaint
+			if dm.Kind == "r3_forged_complainant" {
+				e.Fail("C04", "complaint_in_another_members_name_accepted", "", "group %d: member %d filed a complaint naming member %d as the complainant and it was accepted", mg.ID, dm.State.MemberID, dm.Complaints[0].Complainant)
+				return
+			}
 			compl := dm.State.MemberID
 			mg.R3[compl] = "complain"
 			cws, err := tk.GetComplaintsWithStatus(ctx, tss.GroupID(mg.ID), tss.MemberID(compl))
